@@ -1361,7 +1361,14 @@ func (a *Agent) addCandidate(ctx context.Context, cand Candidate, candidateConn 
 		return err
 	}
 
-	return a.loop.Run(ctx, func(context.Context) {
+	var addErr error
+	if err := a.loop.Run(ctx, func(context.Context) {
+		// Run picks at random between a canceled context and the hand-off, so
+		// the cycle may already have been canceled (by Restart) at this point.
+		if addErr = ctx.Err(); addErr != nil {
+			return
+		}
+
 		set := a.localCandidates[cand.NetworkType()]
 		for _, candidate := range set {
 			if candidate.Equal(cand) {
@@ -1394,7 +1401,11 @@ func (a *Agent) addCandidate(ctx context.Context, cand Candidate, candidateConn 
 		if !cand.filterForLocationTracking() {
 			a.candidateNotifier.EnqueueCandidate(cand)
 		}
-	})
+	}); err != nil {
+		return err
+	}
+
+	return addErr
 }
 
 func (a *Agent) setCandidateExtensions(cand Candidate) {
